@@ -235,7 +235,10 @@ def run_series(vec, eid, workdir):
             elif op == "rms":
                 ret = clampi(round(my_math.rms(list(xs)) * 100 * sc))
             elif op == "pitch":
-                r = pai.getPitchMeasures(list(xs), "f", "l", a["window"] if a["window"] >= 0 else None, a["filterZero"])
+                off = float(a.get("offset", 0))
+                r = pai.getPitchMeasures([x + off for x in xs] if off else list(xs), "f", "l", a["window"] if a["window"] >= 0 else None, a["filterZero"])
+                if off and len(xs) > 0:
+                    r = (r[0] - off, r[1] - off, r[2] - off) + tuple(r[3:])
                 ret = [clampi(round(v * 100)) for v in r]
             elif op == "jumps":
                 pl = [(float(i + 1), float(x)) for i, x in enumerate(xs)]
@@ -334,9 +337,13 @@ def rand_series_vectors(n, seed):
                 continue
             out.append({"op": op, "xs": xs, "args": {"k": 0}})
         elif op == "pitch":
-            sc = rng.choice([1, 1, 1, 2])                                    # scale 2: halves such as 0.5 are in the series
+            sc = rng.choice([1, 1, 1, 2, 10, 10])                            # scale 2: halves such as 0.5; scale 10: tenths, not representable in binary
             xs = [abs(x) if rng.random() < 0.8 else 0 for x in xs]
-            out.append({"op": op, "xs": xs, "scale": sc, "args": {"window": rng.choice([-1, -1, 0, 3, 5]), "filterZero": rng.random() < 0.5}})
+            fz = rng.random() < 0.5
+            args = {"window": rng.choice([-1, -1, 0, 3, 5]), "filterZero": fz}
+            if not fz and sc == 1 and rng.random() < 0.4:
+                args["offset"] = rng.choice([100000000, 4194304, 1000000000])   # a level that dwarfs the spread (sums stay exact in binary64)
+            out.append({"op": op, "xs": xs, "scale": sc, "args": args})
         elif op == "jumps":
             xs = [rng.choice([50, 70, 100, 140, 200, 99, 101, 35]) for _ in range(L)]
             out.append({"op": op, "xs": xs, "args": {"thr": rng.choice([70, 50, 100, 35, 99, 1])}})
